@@ -194,7 +194,111 @@ func c01Schema(cs *h.Case) (*gen.Schema, *tref.Val) {
 	return sc, v
 }
 
+// c01RootContainers: a list, set or map taken out of a message is the root value itself
+// (generic.NewNode(LIST|SET|MAP, bytes) / generic.NewValue(<field type descriptor>, bytes)): path lookups start
+// with an index or a key, and the whole-value conversions run on a container root.
+func c01RootContainers(c *h.Ctx) {
+	c.Run("root-containers", c.N(2000, 50000), func(cs *h.Case) {
+		sc, v := c01Schema(cs)
+		root := structType(sc.Root)
+		cs.Info("idl", sc.IDL())
+		desc, _, err := ParseRoot(sc, thrift.NewDefaultOptions())
+		if err != nil {
+			cs.Viol("read:parse-idl", "err", err)
+			return
+		}
+		var cand []tref.Field
+		for _, f := range v.Fs {
+			if f.V.T == tref.LIST || f.V.T == tref.SET || f.V.T == tref.MAP {
+				cand = append(cand, f)
+			}
+		}
+		if len(cand) == 0 {
+			cs.Cover("root_containers_none")
+			return
+		}
+		f := cand[cs.R.Intn(len(cand))]
+		ft := root.S.Field(f.ID)
+		fd := desc.Struct().FieldById(thrift.FieldID(f.ID))
+		if ft == nil || fd == nil {
+			return
+		}
+		x := f.V.Clone()
+		b := tref.Encode(x)
+		cs.Info("container", trunc(x.String()))
+		cs.Info("bytes", hexs(b))
+		optBits := cs.R.Intn(8)
+		opts := &generic.Options{UseNativeSkip: optBits&1 != 0, MapStructById: optBits&2 != 0, CastStringAsBinary: optBits&4 != 0}
+		generic.UseNativeSkipForGet = cs.R.Bool()
+		defer func() { generic.UseNativeSkipForGet = false }()
+		tr := h.TrapCopy(b, cs.R.Bool(), true)
+		defer tr.Free()
+		base := tr.B
+		rootNode := generic.NewNode(thrift.Type(x.T), base)
+		rootVal := generic.NewValue(fd.Type(), base)
+		nodes := enumNodes(x, ft.T)
+		if len(nodes) > 200 {
+			nodes = nodes[:200]
+		}
+		for _, n := range nodes {
+			if n.parent == nil {
+				checkNode(cs, "root-container:Node", base, rootNode, n.m)
+				checkNode(cs, "root-container:Value", base, rootVal.Node, n.m)
+				c01Interface(cs, rootNode, n, opts)
+				c01Interface(cs, rootVal.Node, n, opts)
+				continue
+			}
+			cs.Info("path", pathStr(n.path))
+			xn := rootNode.GetByPath(n.path...)
+			if checkNode(cs, "root-container:Node.GetByPath", base, xn, n.m) && isContainer(n.m.T) && n.depth <= 2 {
+				c01Interface(cs, xn, n, opts)
+			}
+			xv := rootVal.GetByPath(n.path...)
+			checkNode(cs, "root-container:Value.GetByPath", base, xv.Node, n.m)
+			if n.named {
+				checkNode(cs, "root-container:Value.GetByPath(name)", base, rootVal.GetByPath(n.npath...).Node, n.m)
+			}
+			if n.depth == 1 {
+				// single-step accessors of the root itself
+				switch n.step.Type() {
+				case generic.PathIndex:
+					checkNode(cs, "root-container:Node.Index", base, rootNode.Index(n.pos), n.m)
+					checkNode(cs, "root-container:Value.Index", base, rootVal.Index(n.pos).Node, n.m)
+				case generic.PathStrKey:
+					checkNode(cs, "root-container:Node.GetByStr", base, rootNode.GetByStr(string(n.key.S)), n.m)
+					checkNode(cs, "root-container:Value.GetByStr", base, rootVal.GetByStr(string(n.key.S)).Node, n.m)
+				case generic.PathIntKey:
+					checkNode(cs, "root-container:Node.GetByInt", base, rootNode.GetByInt(int(n.key.I)), n.m)
+					checkNode(cs, "root-container:Value.GetByInt", base, rootVal.GetByInt(int(n.key.I)).Node, n.m)
+				}
+			}
+			cs.CoverN("root_container_lookups", 1)
+		}
+		// absent: one past the end / an absent key
+		switch x.T {
+		case tref.LIST, tref.SET:
+			for _, i := range []int{len(x.L), len(x.L) + 5, -1} {
+				if y := rootNode.GetByPath(generic.NewPathIndex(i)); !y.IsError() {
+					cs.Viol("read:root-container:found-absent:index", "index", i, "len", len(x.L))
+				}
+				if y := rootVal.Index(i); !y.IsError() {
+					cs.Viol("read:root-container:found-absent:Value.Index", "index", i, "len", len(x.L))
+				}
+			}
+		case tref.MAP:
+			if x.KT == tref.STRING {
+				if y := rootNode.GetByStr("no-such-key-\x01"); !y.IsError() || !y.IsErrNotFound() {
+					cs.Viol("read:root-container:absent-key", "err", y.Error())
+				}
+			}
+		}
+		cs.Cover("root_containers_ok")
+		cs.Distinct(fmt.Sprintf("rc-%s-%s-%s-%d", tref.TypeName(x.T), tref.TypeName(x.KT), tref.TypeName(x.ET), len(x.L)))
+	})
+}
+
 func runC01(c *h.Ctx) {
+	defer c01RootContainers(c)
 	c.Run("reads", c.N(5000, 100000), func(cs *h.Case) {
 		sc, v := c01Schema(cs)
 		root := structType(sc.Root)
